@@ -160,6 +160,8 @@ def cli_args(ops):
 
 
 def check(run):
+    import genlib
+    genlib.validate_cli_operations(run, n=run.n(200, 3000))
     run.rule = ("generated pair models (Tabulation, Pair with whitespace-variant keys, Potential-Form, optionally Variables / Table-Form / an unrelated section) x 1..5 operations "
                 "(override / remove / add; existing keys incl. whitespace variants, missing keys and sections, adds of existing keys, repeated keys); API and command line; "
                 "distinct = (file text, operation list)")
